@@ -329,7 +329,83 @@ func opReuseParse(args []string) string {
 	return rec.String() + "|" + rec2.String() + "|" + strings.Join(ds, "/")
 }
 
+// ---------------------------------------------------------------------------
+// rt <fmt> <opts> <xevents>       encode, then Parse the produced bytes
+//
+//	-> <hex>|<ok|err@i>|<events>|<verdict>
+func opRT(args []string) string {
+	f := Formats[args[0]]
+	w := &FailWriter{FailFrom: -1}
+	v, _ := f.NewEncoder(w, optsField(args[1]))
+	ev := structform.EnsureExtVisitor(v)
+	res := "ok"
+	for i, t := range Toks(args[2]) {
+		if err := PlayTok(ev, t); err != nil {
+			res = "err@" + strconv.Itoa(i)
+			break
+		}
+	}
+	out := hx(w.Buf.Bytes())
+	if out == "" {
+		out = "-"
+	}
+	rec := NewRecorder()
+	err := f.Parse(w.Buf.Bytes(), rec)
+	return out + "|" + res + "|" + rec.String() + "|" + ErrClass(err)
+}
+
+// chunk <fmt> <entry W|R> <chunks>     whole-buffer Parse versus a chunked entry point
+//
+//	-> <events whole>|<verdict whole>|<events chunked>|<verdict chunked>|<depths per chunk (W)>
+func opChunk(args []string) string {
+	f := Formats[args[0]]
+	chunks := Chunks(args[2])
+	rec := NewRecorder()
+	err := f.Parse(bytes.Join(chunks, nil), rec)
+	whole := rec.String() + "|" + ErrClass(err)
+	return whole + "|" + opParse([]string{args[0], args[1], "-1", args[2]})
+}
+
+// ext <fmt> <opts> <prefix xevents> <x: one extended token> <suffix xevents>
+//
+//	the stream prefix,x,suffix versus prefix,expand(x),suffix on two fresh encoders
+//	-> <hex with x>|<res>|<depth after x>|<hex with expansion>|<res>|<depth after expansion>
+func opExt(args []string) string {
+	f := Formats[args[0]]
+	run := func(mid []string) string {
+		w := &FailWriter{FailFrom: -1}
+		v, depths := f.NewEncoder(w, optsField(args[1]))
+		ev := structform.EnsureExtVisitor(v)
+		res := "ok"
+		i := 0
+		d := ""
+		play := func(ts []string) bool {
+			for _, t := range ts {
+				if err := PlayTok(ev, t); err != nil {
+					res = "err@" + strconv.Itoa(i)
+					return false
+				}
+				i++
+			}
+			return true
+		}
+		if play(Toks(args[2])) && play(mid) {
+			d = Depths(depths())
+			play(Toks(args[4]))
+		}
+		out := hx(w.Buf.Bytes())
+		if out == "" {
+			out = "-"
+		}
+		return out + "|" + res + "|" + d
+	}
+	return run([]string{args[3]}) + "|" + run(ExpandTok(args[3]))
+}
+
 func init() {
+	RegisterOp("rt", opRT)
+	RegisterOp("chunk", opChunk)
+	RegisterOp("ext", opExt)
 	RegisterOp("enc", opEnc)
 	RegisterOp("parse", opParse)
 	RegisterOp("dec", opDec)
